@@ -1,8 +1,10 @@
-package mocker
+package mocker_test
 
-// C12 probe: runs whole builder histories on the real goom API and reports, after every step, which mocker
-// object the lookup returned (ordinal of first appearance) and the behaviour class of every target (each
-// target is called with the fixed arguments 1 and 2).  Injected into the root package with `go test -overlay`.
+// C12 probe: runs whole builder histories on the real goom API and reports, after every step, whether the op yielded
+// a mocker (or the panic class) and the behaviour class of every target (functions/methods are called with the
+// fixed arguments 1 and 2, variables are read).  It lives in the EXTERNAL test package github.com/tencent/goom_test
+// (injected with `go test -overlay`), so "the caller's package" differs from goom's own package; builders can also
+// be created, and lookups issued, from the helper package c12q.
 
 import (
 	"fmt"
@@ -11,11 +13,15 @@ import (
 	"strings"
 	"testing"
 
+	mocker "github.com/tencent/goom"
 	"github.com/tencent/goom/arg"
 	"github.com/tencent/goom/internal/patch"
 	"github.com/tencent/goom/internal/zzverif/c12p"
+	"github.com/tencent/goom/internal/zzverif/c12q"
 	"github.com/tencent/goom/internal/zzverif/vh"
 )
+
+const vc12Self = "github.com/tencent/goom_test"
 
 //go:noinline
 func vc12pad(a, base int) int {
@@ -61,10 +67,29 @@ type vc12Impl struct{ pad int }
 //go:noinline
 func (t *vc12Impl) M(a int) int { return vc12pad(a, 100000) }
 
+// a second interface variable, with two methods
+type vc12If2 interface {
+	A(a int) int
+	B(a int) int
+}
+
+type vc12Impl2 struct{ pad int }
+
+//go:noinline
+func (t *vc12Impl2) A(a int) int { return vc12pad(a, 100000) }
+
+//go:noinline
+func (t *vc12Impl2) B(a int) int { return vc12pad(a, 100000) }
+
+const vc12VarOrig = 7
+
 var (
 	vc12Real = &vc12Impl{}
 	vc12IV   vc12If = vc12Real
-	vc12Var         = 7
+	vc12Real2        = &vc12Impl2{}
+	vc12IV2  vc12If2 = vc12Real2
+	vc12Var         = vc12VarOrig // mocked with Builder.Var(&vc12Var)
+	vc12W           = vc12VarOrig // mocked with Builder.UnExportedVar(vc12Self + ".vc12W")
 )
 
 // callbacks k0..k3 per signature; result 200000 + 100*k + a
@@ -82,18 +107,28 @@ var vc12UmK = []func(*vc12ucopy, int) int{
 	func(_ *vc12ucopy, a int) int { return vc12k(0, a) }, func(_ *vc12ucopy, a int) int { return vc12k(1, a) },
 	func(_ *vc12ucopy, a int) int { return vc12k(2, a) }, func(_ *vc12ucopy, a int) int { return vc12k(3, a) },
 }
-var vc12IfK = []func(*IContext, int) int{
-	func(_ *IContext, a int) int { return vc12k(0, a) }, func(_ *IContext, a int) int { return vc12k(1, a) },
-	func(_ *IContext, a int) int { return vc12k(2, a) }, func(_ *IContext, a int) int { return vc12k(3, a) },
+var vc12IfK = []func(*mocker.IContext, int) int{
+	func(_ *mocker.IContext, a int) int { return vc12k(0, a) }, func(_ *mocker.IContext, a int) int { return vc12k(1, a) },
+	func(_ *mocker.IContext, a int) int { return vc12k(2, a) }, func(_ *mocker.IContext, a int) int { return vc12k(3, a) },
 }
+
+// distinct function literals of one signature each, as a user writes them when a chain is repeated in a second statement
+var vc12IfAs = []func(*mocker.IContext, int) int{
+	func(*mocker.IContext, int) int { return 0 }, func(*mocker.IContext, int) int { return -1 }, func(*mocker.IContext, int) int { return -2 },
+}
+var vc12FnAs = []func(int) int{func(int) int { return 0 }, func(int) int { return -1 }}
+var vc12UmAs = []func(*vc12ucopy, int) int{func(*vc12ucopy, int) int { return 0 }, func(*vc12ucopy, int) int { return -1 }}
 
 func vc12class(f func(int) int, a int) (res string) {
 	defer func() {
 		if r := recover(); r != nil {
 			msg := fmt.Sprint(r)
-			if strings.HasPrefix(msg, "there is no suitable condition matched") {
+			switch {
+			case strings.HasPrefix(msg, "there is no suitable condition matched"):
 				res = "p"
-			} else {
+			case strings.HasPrefix(msg, "method not implements"):
+				res = "n"
+			default:
 				res = "P:" + vh.Class(msg)
 			}
 		}
@@ -108,6 +143,17 @@ func vc12class(f func(int) int, a int) (res string) {
 		return "v" + strconv.Itoa(r)
 	}
 	return "?" + strconv.Itoa(r)
+}
+
+// a variable "behaves" like its value: the original value is class o, a Set(k) value is class k<k>
+func vc12varClass(v int) string {
+	switch {
+	case v == vc12VarOrig:
+		return "o"
+	case v >= 0 && v < 4:
+		return "k" + strconv.Itoa(v)
+	}
+	return "?" + strconv.Itoa(v)
 }
 
 // the targets in the order of the observation
@@ -130,13 +176,16 @@ var vc12Targets = []struct {
 
 func vc12behaviour() string {
 	var sb strings.Builder
-	for i, t := range vc12Targets {
-		if i > 0 {
-			sb.WriteByte(',')
-		}
+	for _, t := range vc12Targets {
 		sb.WriteString(vc12class(t.call, 1))
 		sb.WriteByte('.')
 		sb.WriteString(vc12class(t.call, 2))
+		sb.WriteByte(',')
+	}
+	sb.WriteString(vc12varClass(vc12Var) + "." + vc12varClass(vc12Var) + ",")
+	sb.WriteString(vc12varClass(vc12W) + "." + vc12varClass(vc12W))
+	for _, f := range []func(int) int{func(a int) int { return vc12IV2.A(a) }, func(a int) int { return vc12IV2.B(a) }} {
+		sb.WriteString("," + vc12class(f, 1) + "." + vc12class(f, 2))
 	}
 	return sb.String()
 }
@@ -144,29 +193,24 @@ func vc12behaviour() string {
 func vc12clean() {
 	patch.UnpatchAll()
 	vc12IV = vc12Real
-	vc12Var = 7
+	vc12IV2 = vc12Real2
+	vc12Var = vc12VarOrig
+	vc12W = vc12VarOrig
+}
+
+// a handle as a test keeps it in a local variable
+type vc12handle struct {
+	mk   mocker.Mocker
+	stub func() mocker.ExportedMocker // nil: the handle has no Return/When API (variables)
+	cbs  func(k int) interface{}
+	set  func(k int) // variables
+	recv bool
 }
 
 type vc12run struct {
-	b   *Builder
-	ids map[interface{}]int
-	nas int // counts As() calls on unexported functions / methods: they rotate through different literals
-}
-
-// distinct function literals of one signature each, as a user writes them when a chain is repeated in a second statement
-var vc12IfAs = []func(*IContext, int) int{
-	func(*IContext, int) int { return 0 }, func(*IContext, int) int { return -1 }, func(*IContext, int) int { return -2 },
-}
-var vc12FnAs = []func(int) int{func(int) int { return 0 }, func(int) int { return -1 }}
-var vc12UmAs = []func(*vc12ucopy, int) int{func(*vc12ucopy, int) int { return 0 }, func(*vc12ucopy, int) int { return -1 }}
-
-func (r *vc12run) id(m interface{}) string {
-	n, ok := r.ids[m]
-	if !ok {
-		n = len(r.ids)
-		r.ids[m] = n
-	}
-	return "m" + strconv.Itoa(n)
+	b    *mocker.Builder
+	nas  int // counts As() calls on unexported functions / methods: they rotate through different literals
+	regs map[string]*vc12handle
 }
 
 func vc12ints(toks []string) []interface{} {
@@ -177,32 +221,6 @@ func vc12ints(toks []string) []interface{} {
 	return vs
 }
 
-// stub applies a stub instruction to an ExportedMocker
-func vc12stub(m ExportedMocker, ins []string, recv bool) {
-	if recv { // As() on an unexported method yields a DefMocker whose conditions include the receiver
-		switch ins[0] {
-		case "when":
-			m.When(arg.Any(), int(vh.I64(ins[1])))
-			return
-		case "whenret":
-			m.When(arg.Any(), int(vh.I64(ins[1]))).Return(int(vh.I64(ins[2])))
-			return
-		}
-	}
-	switch ins[0] {
-	case "ret":
-		m.Return(vc12ints(ins[1:])...)
-	case "when":
-		m.When(vc12ints(ins[1:])...)
-	case "whenret":
-		m.When(int(vh.I64(ins[1]))).Return(int(vh.I64(ins[2])))
-	case "rets":
-		m.Returns(vc12ints(ins[1:])...)
-	default:
-		panic("bad-op")
-	}
-}
-
 func vc12idx(s string, n int) int {
 	v, err := strconv.Atoi(s)
 	if err != nil || v < 0 || v >= n {
@@ -211,7 +229,103 @@ func vc12idx(s string, n int) int {
 	return v
 }
 
-// step executes one op of a history and returns the mocker ordinal ("-" when the op has none).
+// lookup performs one builder lookup from this package.
+func (r *vc12run) lookup(kind, name string) *vc12handle {
+	b := r.b
+	switch kind {
+	case "fn":
+		var m *mocker.DefMocker
+		switch name {
+		case "fA":
+			m = b.Func(vc12FA)
+		case "fB":
+			m = b.Func(vc12FB)
+		default:
+			panic("bad-op")
+		}
+		return &vc12handle{mk: m, stub: func() mocker.ExportedMocker { return m }, cbs: func(k int) interface{} { return vc12FnK[k] }}
+	case "st":
+		m := b.Struct(&vc12T{}).Method(name)
+		return &vc12handle{mk: m, stub: func() mocker.ExportedMocker { return m }, cbs: func(k int) interface{} { return vc12StK[k] }}
+	case "if":
+		// "M", "M.a1", "M.a2": the same method, As() is given a different function literal of the same signature
+		lit := 0
+		if i := strings.Index(name, ".a"); i >= 0 {
+			lit = vc12idx(name[i+2:], len(vc12IfAs))
+			name = name[:i]
+		}
+		m := b.Interface(&vc12IV).Method(name)
+		return &vc12handle{mk: m, stub: func() mocker.ExportedMocker { return m.As(vc12IfAs[lit]) }, cbs: func(k int) interface{} { return vc12IfK[k] }}
+	case "i2":
+		if name != "A" && name != "B" {
+			panic("bad-op")
+		}
+		m := b.Interface(&vc12IV2).Method(name)
+		return &vc12handle{mk: m, stub: func() mocker.ExportedMocker { r.nas++; return m.As(vc12IfAs[r.nas%len(vc12IfAs)]) },
+			cbs: func(k int) interface{} { return vc12IfK[k] }}
+	case "xf":
+		m := b.ExportFunc("vc12" + name)
+		return &vc12handle{mk: m, stub: func() mocker.ExportedMocker { r.nas++; return m.As(vc12FnAs[r.nas%len(vc12FnAs)]) },
+			cbs: func(k int) interface{} { return vc12FnK[k] }}
+	case "xs":
+		if name != "um" {
+			panic("bad-op")
+		}
+		m := b.ExportStruct("*vc12u").Method("um")
+		return &vc12handle{mk: m, stub: func() mocker.ExportedMocker { r.nas++; return m.As(vc12UmAs[r.nas%len(vc12UmAs)]) },
+			cbs: func(k int) interface{} { return vc12UmK[k] }, recv: true}
+	case "var":
+		m := b.Var(&vc12Var)
+		return &vc12handle{mk: m, set: func(k int) { m.Set(k) }}
+	case "uvar":
+		m := b.UnExportedVar(vc12Self + ".vc12W")
+		return &vc12handle{mk: m, set: func(k int) { m.Set(k) }}
+	}
+	panic("bad-op")
+}
+
+// instr issues one instruction through a handle.
+func (h *vc12handle) instr(ins []string) {
+	switch ins[0] {
+	case "look":
+	case "apply":
+		k := vc12idx(strings.TrimPrefix(ins[1], "k"), 4)
+		if h.set != nil {
+			h.set(k)
+		} else {
+			h.mk.Apply(h.cbs(k))
+		}
+	case "cancel":
+		h.mk.Cancel()
+	default:
+		if h.stub == nil {
+			panic("bad-op")
+		}
+		m := h.stub()
+		switch ins[0] {
+		case "ret":
+			m.Return(vc12ints(ins[1:])...)
+		case "when":
+			if h.recv { // As() on an unexported method yields a DefMocker whose conditions include the receiver
+				m.When(arg.Any(), int(vh.I64(ins[1])))
+			} else {
+				m.When(int(vh.I64(ins[1])))
+			}
+		case "whenret":
+			if h.recv {
+				m.When(arg.Any(), int(vh.I64(ins[1]))).Return(int(vh.I64(ins[2])))
+			} else {
+				m.When(int(vh.I64(ins[1]))).Return(int(vh.I64(ins[2])))
+			}
+		case "rets":
+			m.Returns(vc12ints(ins[1:])...)
+		default:
+			panic("bad-op")
+		}
+	}
+}
+
+// step executes one op of a history; "m" when it went through a mocker, "-" otherwise.
 func (r *vc12run) step(toks []string) string {
 	b := r.b
 	if len(toks) == 0 {
@@ -221,9 +335,11 @@ func (r *vc12run) step(toks []string) string {
 	case "pkg":
 		switch toks[1] {
 		case "p0":
-			b.Pkg("github.com/tencent/goom")
+			b.Pkg(vc12Self)
 		case "p1":
 			b.Pkg(c12p.Path)
+		case "pq":
+			b.Pkg(c12q.Path)
 		default:
 			panic("bad-op")
 		}
@@ -231,79 +347,31 @@ func (r *vc12run) step(toks []string) string {
 	case "reset":
 		b.Reset()
 		return "-"
-	case "var":
-		m := b.Var(&vc12Var)
-		if len(toks) > 1 && toks[1] == "set" {
-			m.Set(int(vh.I64(toks[2])))
+	case "qlook": // a lookup issued from the helper package
+		c12q.LookFunc(b, vc12FA)
+		return "m"
+	case "xfe": // rejected before anything happens
+		b.ExportFunc("")
+		return "m"
+	case "keep":
+		if len(toks) != 4 {
+			panic("bad-op")
 		}
-		return "-" // variable mockers are C08's subject; here the lookup only matters for the package override
+		r.regs[toks[1]] = r.lookup(toks[2], toks[3])
+		return "m"
+	case "on":
+		h := r.regs[toks[1]]
+		if h == nil || len(toks) < 3 {
+			panic("bad-op")
+		}
+		h.instr(toks[2:])
+		return "m"
 	}
 	if len(toks) < 3 {
 		panic("bad-op")
 	}
-	ins := toks[2:]
-	var (
-		mk   Mocker
-		stub func() ExportedMocker
-		cb   interface{}
-		recv bool
-	)
-	kidx := func() int {
-		if ins[0] == "apply" {
-			return vc12idx(strings.TrimPrefix(ins[1], "k"), 4)
-		}
-		return 0
-	}
-	switch toks[0] {
-	case "fn":
-		var m *DefMocker
-		switch toks[1] {
-		case "fA":
-			m = b.Func(vc12FA)
-		case "fB":
-			m = b.Func(vc12FB)
-		default:
-			panic("bad-op")
-		}
-		mk, stub, cb = m, func() ExportedMocker { return m }, vc12FnK[kidx()]
-	case "st":
-		m := b.Struct(&vc12T{}).Method(toks[1])
-		mk, stub, cb = m, func() ExportedMocker { return m }, vc12StK[kidx()]
-	case "if":
-		// "M", "M.a1", "M.a2": the same method, As() is given a different function literal of the same signature
-		// (As only stores the signature holder; which literal is passed must not matter)
-		name, lit := toks[1], 0
-		if i := strings.Index(name, ".a"); i >= 0 {
-			lit = vc12idx(name[i+2:], len(vc12IfAs))
-			name = name[:i]
-		}
-		m := b.Interface(&vc12IV).Method(name)
-		mk, stub, cb = m, func() ExportedMocker { return m.As(vc12IfAs[lit]) }, vc12IfK[kidx()]
-	case "xf":
-		m := b.ExportFunc("vc12" + toks[1])
-		r.nas++
-		mk, stub, cb = m, func() ExportedMocker { return m.As(vc12FnAs[r.nas%len(vc12FnAs)]) }, vc12FnK[kidx()]
-	case "xs":
-		if toks[1] != "um" {
-			panic("bad-op")
-		}
-		m := b.ExportStruct("*vc12u").Method("um")
-		r.nas++
-		mk, stub, cb, recv = m, func() ExportedMocker { return m.As(vc12UmAs[r.nas%len(vc12UmAs)]) }, vc12UmK[kidx()], true
-	default:
-		panic("bad-op")
-	}
-	id := r.id(mk)
-	switch ins[0] {
-	case "look":
-	case "apply":
-		mk.Apply(cb)
-	case "cancel":
-		mk.Cancel()
-	default:
-		vc12stub(stub(), ins, recv)
-	}
-	return id
+	r.lookup(toks[0], toks[1]).instr(toks[2:])
+	return "m"
 }
 
 // TestVerifC12 executes every `c12.hist` line: ops separated by ";".
@@ -311,20 +379,35 @@ func TestVerifC12(t *testing.T) {
 	debug.SetGCPercent(-1) // F9 (collectable callbacks) belongs to C07; keep it out of this probe
 	out := vh.OpenOut()
 	defer out.Close()
+	n := 0
 	for _, op := range vh.ReadOps() {
 		if len(op.Toks) == 0 || op.Toks[0] != "c12.hist" {
 			continue
+		}
+		if n++; n%256 == 0 {
+			debug.SetGCPercent(100) // bounded memory for long chunks: collect between histories, never inside one
+			debug.FreeOSMemory()
+			debug.SetGCPercent(-1)
 		}
 		vc12clean()
 		if pre := vc12behaviour(); strings.Trim(pre, "o.,") != "" {
 			out.Put(op.Idx, "dirty %s", pre)
 			continue
 		}
-		r := &vc12run{b: New(), ids: map[interface{}]int{}}
+		steps := strings.Split(strings.TrimSpace(strings.TrimPrefix(op.Line, "c12.hist")), ";")
+		r := &vc12run{regs: map[string]*vc12handle{}}
+		if strings.TrimSpace(steps[0]) == "newq" { // the builder is created by the helper package
+			r.b = c12q.New()
+		} else {
+			r.b = mocker.New()
+		}
 		var obs []string
-		for _, step := range strings.Split(strings.TrimSpace(strings.TrimPrefix(op.Line, "c12.hist")), ";") {
+		for i, step := range steps {
 			toks := strings.Fields(step)
-			res := vh.Catch(func() string { return r.step(toks) })
+			res := "-"
+			if !(i == 0 && len(toks) == 1 && toks[0] == "newq") {
+				res = vh.Catch(func() string { return r.step(toks) })
+			}
 			obs = append(obs, res+" "+vc12behaviour())
 		}
 		vh.Catch(func() string { r.b.Reset(); return "" })
